@@ -107,12 +107,13 @@ def main():
     for t in range(3000 if chk.thorough else 500):
         n = int(rng.integers(1, 4))
         m = int(rng.integers(1, 6))
-        He = rng.integers(-6, 7, size=(n, n))
+        wide = 45 if t % 3 == 1 else 6             # "entries spanning many orders of magnitude": 2^-45 .. 2^45
+        He = rng.integers(-wide, wide + 1, size=(n, n))
         H = np.where(rng.uniform(size=(n, n)) < 0.5, np.ldexp(1.0, He) * rng.choice([1.0, 1.5, -1.0, 1.25], size=(n, n)), 0.0)
         H = np.triu(H) + np.triu(H, 1).T
         if t % 7 == 0:
             H[:] = 0.0
-        Je = rng.integers(-6, 7, size=(m, n))
+        Je = rng.integers(-wide, wide + 1, size=(m, n))
         J = np.where(rng.uniform(size=(m, n)) < 0.7, np.ldexp(1.0, Je) * rng.choice([1.0, 1.5, -1.75], size=(m, n)), 0.0)
         if t % 5 == 0:
             J[:] = np.ldexp(1.0, int(rng.integers(-4, 5)))          # one variable coupled to equal rows
@@ -135,8 +136,37 @@ def main():
         chk.case(("kkt.random", t))
         if bad is not None:
             chk.kernel_violation(("kkt.random.colsum.range", "returned"), {"H": H.tolist(), "J": J.tolist(), "weights": D, "column": bad[0], "sum": bad[1]})
+    # Nominal / GradJac on magnitudes far outside the enumerated domain (2^-300 .. 2^300), predicate evaluated exactly
+    nwide = 0
+    for t in range(1500 if chk.thorough else 300):
+        n = int(rng.integers(1, 5))
+        m = int(rng.integers(1, 4))
+        e = 300 if t % 2 else 40
+        mant = [1.0, 1.5, 1.999, 1.0000001, -1.25]
+        v = np.where(rng.uniform(size=n) < 0.8, np.ldexp(rng.choice(mant, size=n), rng.integers(-e, e + 1, size=n)), 0.0)
+        cv = np.where(rng.uniform(size=m) < 0.8, np.ldexp(rng.choice(mant, size=m), rng.integers(-e, e + 1, size=m)), 0.0)
+        sc = Scaling.from_nominal_values(v, cv)
+        for vals, ws, nm in ((v, sc.var_weights, "var"), (cv, sc.cons_weights, "cons")):
+            for j in range(len(vals)):
+                if vals[j] != 0 and not (1 <= Fraction(abs(float(vals[j]))) * Fraction(2) ** int(ws[j]) < 2):
+                    chk.kernel_violation(("nominal.wide.range", nm), {"values": vals.tolist(), "weights": [int(w) for w in ws], "index": j})
+        g = np.where(rng.uniform(size=n) < 0.8, np.ldexp(rng.choice(mant, size=n), rng.integers(-e, e + 1, size=n)), 0.0)
+        J = np.where(rng.uniform(size=(m, n)) < 0.6, np.ldexp(rng.choice(mant, size=(m, n)), rng.integers(-e // 2, e // 2 + 1, size=(m, n))), 0.0)
+        sc = Scaling.from_grad_jac(g, sps.coo_matrix(J).asformat(("coo", "csr", "csc")[t % 3]))
+        vw = [int(w) for w in sc.var_weights]
+        cw = [int(w) for w in sc.cons_weights]
+        for j in range(n):
+            if g[j] != 0 and not (1 <= Fraction(abs(float(g[j]))) * Fraction(2) ** (-vw[j]) < 2):
+                chk.kernel_violation(("gradjac.wide.grad.range", "var"), {"g": g.tolist(), "vw": vw, "index": j})
+        for i in range(m):
+            row = [Fraction(abs(float(J[i, j]))) * Fraction(2) ** (cw[i] - vw[j]) for j in range(n)]
+            if max(row) != 0 and not (1 <= max(row) < 2):
+                chk.kernel_violation(("gradjac.wide.rowmax.range", "row"), {"g": g.tolist(), "J": J.tolist(), "vw": vw, "cw": cw, "row": i})
+        nwide += 1
+        chk.case(("wide", t))
+    chk.cov["wide_magnitude_cases"] = nwide
     chk.cov["kkt_random"] = {"returned": nret, "raised_not_converged": nraise}
-    chk.assumptions += ["exactness domain: magnitudes n/32 with n < 2^11; every operation of scale.py on them is exact in binary64",
+    chk.assumptions += ["exactness domain of the enumerated kernel: magnitudes n/32 with n < 2^11 (every operation of scale.py on them is exact in binary64); randomised cases reach 2^-300..2^300 (Nominal/GradJac) and 2^-45..2^45 (KKT)",
                         "the range predicates are evaluated with python Fractions on the *code's* weights"]
     return chk.finish(rule="TLC enumerates every case of the domain (nominal vectors, gradient+2x2 Jacobian, 3x3 KKT) and checks the "
                            "normalisation predicates on the exact transcription; each case is replayed through Scaling.from_nominal_values / "
